@@ -20,6 +20,7 @@ VERIF_DEFINE_CELT_FATAL
 /* ---- ghost state shared with the stubs ---- */
 static OpusEncoder verif_old;              /* the state at entry (settings + stream state) */
 static int verif_frames_total, verif_frame_calls, verif_req_frame_size, verif_prev_channels0, verif_prev_mode0;
+static int verif_call_idx, verif_second_call_stereo, verif_second_call_frames;
 static int verif_lsb_arg, verif_fc_max = -1, verif_rp_maxlen = -1, verif_rp_pad = -1, verif_pad_newlen = -1, verif_multi;
 
 /* stub of the frame coder (same signature; calls are redirected by goto-instrument --replace-calls): checks what the decision
@@ -30,6 +31,7 @@ static opus_int32 verif_encode_frame_native(OpusEncoder *st, const opus_res *pcm
    opus_int32 ret = nondet_int(); int bw = st->bandwidth, lim;
    (void)pcm; (void)float_api; (void)first_frame; (void)analysis_info; (void)is_silence; (void)redundancy; (void)celt_to_silk; (void)prefill; (void)equiv_rate; (void)to_celt;
    CANARY("frame coder reached");
+   if (verif_call_idx == 2) { verif_second_call_frames++; if (st->stream_channels != 1) verif_second_call_stereo = 1; }
    verif_frame_calls++; verif_frames_total += frame_size; verif_fc_max = max_data_bytes; verif_multi = (frame_size != verif_req_frame_size);
    __CPROVER_assert(max_data_bytes >= 1 && __CPROVER_w_ok(data, max_data_bytes), "frame coder gets a writable buffer of the size it is told");
    __CPROVER_assert(frame_size == st->Fs / 400 || frame_size == st->Fs / 200 || frame_size == st->Fs / 100 || frame_size == st->Fs / 50 ||
@@ -182,5 +184,38 @@ void h_encode_native(void)
       nf = (data[0] & 3) == 0 ? 1 : (data[0] & 3) != 3 ? 2 : (ret >= 2 ? (data[1] & 0x3F) : -1);
       if (st->use_vbr) __CPROVER_assert(nf >= 1 && spf * nf == frame_size, "header-only packet announces exactly the requested duration");
       __CPROVER_assert(((data[0] >> 2) & 1) == (st->stream_channels == 2), "header-only packet carries the current channel count");
+   }
+}
+
+/* "A forced channel count changed mid-stream takes effect within three packets": a stereo stream, OPUS_SET_FORCE_CHANNELS(1) has just
+   been accepted (force_channels == 1 in an otherwise arbitrary state that was coding stereo), then two encode calls: the first may
+   still code stereo while the speech layer smooths the switch, every frame of the second must be handed to the frame coder as mono. */
+void h_encode_native_force_mono(void)
+{
+   enc_block blk; OpusEncoder *st = &blk.e; opus_int32 r1, r2, out_bytes = nondet_int(); int frame_size = nondet_int(), lsb_depth = nondet_int(), float_api = nondet_int() & 1;
+   static opus_res pcm[5760 * 2]; unsigned char *data;
+#ifdef VERIF_FS
+   __CPROVER_assume(st->Fs == VERIF_FS);
+#endif
+   __CPROVER_assume(settings_ok(st) && stream_ok(st) && st->channels == 2 && st->force_channels == 1 && st->lfe == 0);
+   __CPROVER_assume(st->celt_enc_offset >= (int)sizeof(OpusEncoder) && st->celt_enc_offset < (int)sizeof(OpusEncoder) + VERIF_EXTRA);
+   __CPROVER_assume(st->silk_enc_offset >= (int)sizeof(OpusEncoder) && st->silk_enc_offset < (int)sizeof(OpusEncoder) + VERIF_EXTRA);
+   __CPROVER_assume(frame_size == st->Fs / 400 || frame_size == st->Fs / 200 || frame_size == st->Fs / 100 || frame_size == st->Fs / 50 || frame_size == st->Fs / 25 ||
+                    frame_size == 3 * st->Fs / 50 || frame_size == 4 * st->Fs / 50 || frame_size == 5 * st->Fs / 50 || frame_size == 6 * st->Fs / 50);
+   __CPROVER_assume(out_bytes >= 1 && out_bytes <= 4000 && lsb_depth >= 8 && lsb_depth <= 24);
+   data = malloc(out_bytes); __CPROVER_assume(data != NULL);
+   verif_old.application = st->application; verif_old.channels = st->channels; verif_old.Fs = st->Fs; verif_old.force_channels = st->force_channels;
+   verif_old.user_bandwidth = st->user_bandwidth; verif_old.max_bandwidth = st->max_bandwidth; verif_old.user_forced_mode = st->user_forced_mode;
+   verif_old.use_vbr = st->use_vbr; verif_old.user_bitrate_bps = OPUS_AUTO; verif_old.lsb_depth = st->lsb_depth;
+   verif_lsb_arg = lsb_depth; verif_req_frame_size = frame_size;
+   verif_prev_channels0 = 2; verif_prev_mode0 = st->prev_mode;          /* the smoothing exception of the per-call assertion applies to both calls */
+   verif_call_idx = 1; verif_frames_total = 0; verif_frame_calls = 0;
+   r1 = opus_encode_native(st, pcm, frame_size, data, out_bytes, lsb_depth, pcm, frame_size, 0, -2, st->channels, (downmix_func)0, float_api);
+   verif_prev_channels0 = 2; verif_prev_mode0 = st->prev_mode;
+   verif_call_idx = 2; verif_second_call_stereo = 0; verif_second_call_frames = 0; verif_frames_total = 0; verif_frame_calls = 0;
+   r2 = opus_encode_native(st, pcm, frame_size, data, out_bytes, lsb_depth, pcm, frame_size, 0, -2, st->channels, (downmix_func)0, float_api);
+   if (r1 > 0 && r2 > 0 && verif_second_call_frames > 0) {
+      CANARY("second packet coded");
+      __CPROVER_assert(!verif_second_call_stereo, "after OPUS_SET_FORCE_CHANNELS(1) the second packet is coded mono, frame by frame (the switch takes effect within three packets)");
    }
 }
